@@ -126,19 +126,11 @@ predicate:
 									{ $$ = ast.NewBinary(ast.BinaryStartsWith, $1, $4) }
 	| expr LIKE_REGEX_P STRING_P
 	{
-		var err error
-		$$, err = ast.NewRegex($1, $3, "")
-		if err != nil {
-			pathlex.Error(err.Error())
-		}
+		$$ = pathlex.(*lexer).newRegex($1, $3, "")
 	}
 	| expr LIKE_REGEX_P STRING_P FLAG_P STRING_P
 	{
-		var err error
-		$$, err = ast.NewRegex($1, $3, $5)
-		if err != nil {
-			pathlex.Error(err.Error())
-		}
+		$$ = pathlex.(*lexer).newRegex($1, $3, $5)
 	}
 	;
 
@@ -218,6 +210,7 @@ accessor_op:
 				$$ = ast.NewBinary(ast.BinaryDecimal, $4[0], $4[1])
 			default:
 				pathlex.Error("invalid input syntax: .decimal() can only have an optional precision[,scale]")
+				$$ = ast.NewBinary(ast.BinaryDecimal, nil, nil)
 			}
 		}
 	| '.' DATE_P '(' ')' { $$ = ast.NewUnary(ast.UnaryDate, nil) }
